@@ -63,12 +63,27 @@ status, fatal stop), step machine spec/Driver_MC.tla.
     cover, Z80 / 8051; quick: seeded sample of 1000 of the 1.5 k runs that contain `expect 290`, thorough all.
     Mutation tried: the -w test moved in front of FindAndTakeExpectError - reported (3 % of the runs).
 
+    WHERE DIAGNOSTICS ARE WRITTEN (extension "diagdest": checks/ext_diagdest.py, spec/DiagDest.tla, DiagDest_MC.tla, cfgs
+    DiagDest_MC / _All / _2f / _dev (quick) and DiagDest_MC4 / _All3 / _2f3 (thorough); last phase of main(), its TLC runs
+    are started at the beginning and work in the background; added after a seeded change went unnoticed: the `!ListOn`
+    term dropped from the test in WrErrorString that sends a message to the error channel - with -l a diagnostic raised
+    inside LISTING OFF was counted, summarised, decided status 2 and was written nowhere).  The covers above had -L as a
+    seed-chosen report option only, no listing-control statement, and looked at the error channel alone.  New dimension
+    = listing destination {none, -l console, -L file, -L -olist name} x the listing-control state of the source at the
+    moment of the message (LISTING OFF / ON / NOSKIPPED / PURECODE, SAVE / RESTORE of it, reset per pass and file) x class
+    of the message x -Werror x -maxerrors x -w x one / two passes; "reported" and "the totals equal the diagnostics
+    emitted" are judged on every channel the option set selects (error channel of -E and the listing; a message in the
+    listing file and on the error channel is one message).  (M) every run of <= 3 (thorough 4) line classes: the C02
+    clauses over the emitted messages, NothingLost, the manual's -E without -l, DeclDest (declarative reading of the
+    text); DiagDest_MC_dev.cfg (the test without `!ListOn`) must be refuted.  (G) every run printed with LOutcome, quick
+    6 000 replayed (Z80 / 8051, seed-chosen -q -x -n -gnuerrors -E).  Details, bounds, mutations: docstring of
+    ext_diagdest.py.
+
 Bounds / not covered: a block holds exactly one statement of the jump family (a mover INSIDE a block is not generated);
 EXPECT lists of several numbers and EXPECT of other error numbers are not generated; EXPECT of a FATAL number is not
 generated either (probing showed that `expect 10001` / `include "missing.inc"` / `endexpect` makes asl loop forever:
 the swallowed fatal error lets INCLUDE go on with a file that was never opened - a C03 matter, reported there); line classes are fixed representative lines (unknown mnemonic, `ds 0`, include of a missing
-file, ERROR/WARNING/FATAL); +G, -l (listing to stdout
-replaces the error channel), I/O errors (unwritable output, disk full) and message languages other than C are not
+file, ERROR/WARNING/FATAL); +G, -t / PAGE / MACEXP (shape of the listing), I/O errors (unwritable output, disk full) and message languages other than C are not
 exercised; at most 2 files and 2 passes in the model.  Renderer, tokeniser and comparison in Python are trusted.
 
 Finding on the tree as originally pinned: `Word ErrorCount, WarnCount` wrap at 65536 (REPT 65536 of a faulty line:
